@@ -16,7 +16,7 @@ ID = "C16"
 RULE = (
     "(a) breadth-first search over all call histories of the real LayeredArchitecture builder "
     "(alphabet: layer(L1|L2|L3), containing_modules(str) and (list of 1-2 distinct names) over "
-    "{mod_one, one_mod, o}, have_modules_with_names_matching(rx1|rx2), with_layer()), deduplicated "
+    "{mod_one, one_mod, o}, have_modules_with_names_matching(rx1 | a regex spelled like the module name mod_one), with_layer()), deduplicated "
     "on (full attribute snapshot, specification state) and run to the fixpoint; (b) the same for "
     "LayerRule over its 15 fluent methods, depth-bounded; (c) TLA+ model of (a) explored by TLC "
     "with a history variable, every model state replayed on the real builder. Every transition is "
@@ -33,7 +33,7 @@ ASSUMPTIONS = [
 
 MODS = ("mod_one", "one_mod", "o")
 LAYERS = ("L1", "L2", "L3")
-REGEXES = ("rx1", "rx2")
+REGEXES = ("rx1", "mod_one")  # one regex is spelled exactly like a module name
 
 # ------------------------------------------------------------------ (a) LayeredArchitecture
 
@@ -103,6 +103,8 @@ def la_spec_step(st, action):
         if not pending:
             return DONT, st, None
         assigned = {m for _, c in st if c and c[0] == "names" for m in c[1]}
+        # a name spelled exactly like the regex of an earlier layer would belong to both layers
+        assigned |= {c[1] for _, c in st if c and c[0] == "regex"}
         if assigned & set(ms):
             return REJECT, st, None
         nxt = tuple((n, ("names", ms)) if c is None else (n, c) for n, c in st)
@@ -110,6 +112,8 @@ def la_spec_step(st, action):
     if kind == "regex":
         if not pending:
             return DONT, st, None
+        if any(c and action[1] in (c[1] if c[0] == "names" else (c[1],)) for _, c in st):
+            return DONT, st, None  # regex spelled like an identifier already in use: not covered by the statement
         nxt = tuple((n, ("regex", action[1])) if c is None else (n, c) for n, c in st)
         return ACCEPT, nxt, la_expected(nxt)
     raise ValueError(action)
